@@ -167,7 +167,20 @@ def parse_tags(text):
     # assert isinstance(text, unicode)
     if not text:
         return []
-    return Parser(variant="tags").parse_tags(text)
+
+    parser = Parser(variant="tags")
+    tags = []
+    for line in text.splitlines():
+        parser.line += 1
+        line = line.strip()
+        if not line or line.startswith("#"):
+            # -- SKIP: Empty lines and comment lines.
+            continue
+        if not line.startswith("@"):
+            message = u"tag: %s (line: %s)" % (line.split()[0], line)
+            raise ParserError(message, parser.line, None, line)
+        tags.extend(parser.parse_tags(line))
+    return tags
 
 
 # -----------------------------------------------------------------------------
